@@ -631,7 +631,7 @@ class SymCtx:
 
     # ---- exploration
     def explore(self, fn, seeds=None, stop_when_frontier=None,
-                yield_after=None):
+                yield_after=None, deadline=None):
         """run fn(self) on every feasible path.  Returns the list of
         unexplored prefixes (non-empty only with stop_when_frontier, or
         when yield_after paths have been explored: the caller re-queues
@@ -646,6 +646,10 @@ class SymCtx:
                 return work
             if yield_after is not None and \
                     self.stats.paths - n0 >= yield_after:
+                return work
+            if deadline is not None and time.time() > deadline and \
+                    self.stats.paths > n0:
+                # time box of the thorough tier: hand the rest back
                 return work
             if self.stats.paths >= self.max_paths or \
                     time.time() - t0 > self.max_s:
